@@ -949,7 +949,6 @@ def gen_C16(g, tier):
         for n in [0, 1, 2, 15, 16, 17, 31, 32, 33, 63, 64, 65, 127, 128, 129, 200] + [r.randrange(0, 300) for _ in range(10 if tier == "quick" else 300)]:
             t = [r.choice(alpha) for _ in range(n)]
             lines.append(f"{c} macro {hx(t)}")
-            lines.append(f"{c} macroshow {hx(t)}")
             lines.append(f"{c} show p str {hx(t)}")
             lines.append(f"{c} hash p str {hx(t)}")
             if n:
@@ -957,17 +956,12 @@ def gen_C16(g, tier):
                 bad = r.choice(list(b"acgtnNUXxZ0 9\n-.*") + [0xc3])
                 t2 = t[:pos] + ([bad] if bad != 0xc3 else [0xc3, 0xa9]) + t[pos:]
                 lines.append(f"{c} macro {hx(t2)}")
-                lines.append(f"{c} macroshow {hx(t2)}")
         for b in range(128):
             lines.append(f"{c} macro {b:02x}")
             lines.append(f"{c} macro 41{b:02x}43")
     for n in range(1, 33):
         t = [r.choice([65, 67, 71, 84]) for _ in range(n)]
-        lines.append(f"dna macrokmer usize {hx(t)}")
         lines.append(f"dna kmer fromstr {n} usize {hx(t)}")
-    for n in (33, 48, 64):
-        t = [r.choice([65, 67, 71, 84]) for _ in range(n)]
-        lines.append(f"dna macrokmer u128 {hx(t)}")
     return lines
 
 
